@@ -40,10 +40,114 @@ CORE = ["a", "e", "f", "nx", "root", "rootbar", ".", "..", "", "nul"]
 FULL = CORE + ["bs", "pct2e", "pct2f", "xff", "star", "sp"]
 DEEP = ["a", "f", "nx", "rootbar", ".", "..", "", "root"]
 
+# "." / ".." segments with an ignorable or odd byte before, inside or after them: a server that drops, trims or
+# translates such a byte *after* it has looked for "." and ".." turns the segment into a live parent reference.
+ODD_BYTES = ["\0", " ", "\t", "\r", "\x7f", "\xa0", "\xff", "\\", "\x01", "%00", "\0\0"]
+
+
+def odd_forms(b):
+    return [b + "..", ".." + b, "." + b + ".", b + ".", "." + b]
+
+
+ODD_NUL = odd_forms("\0")
+ODD_OTHER = [f for b in ODD_BYTES[1:] for f in odd_forms(b)]
+ODD_ALL = ODD_NUL + ODD_OTHER
+
+
+def odd_lines(wd, thorough):
+    """Every verb on every NUL-decorated dot segment (alone, before and after an ordinary name), the main verbs on
+    the dot segments decorated with the other odd bytes."""
+    al = alphabet()
+    for form in ODD_NUL:
+        for p in [form, form + "/a", form + "/" + al["rootbar"], "a/" + form, "/" + form, form + "/" + form + "/" + al["rootbar"]]:
+            for g in _verb_lines(PATH_VERBS, p, wd):
+                yield g
+    for form in ODD_OTHER:
+        for p in [form, form + "/" + al["rootbar"]] + (["a/" + form, "/" + form + "/" + form] if thorough else []):
+            for g in _verb_lines(PATH_VERBS if thorough else ("CWD", "RETR", "MKD", "RNTO"), p, wd):
+                yield g
+
+
+def _verb_lines(verbs, p, wd):
+    for v in verbs:
+        if v == "RNFR":
+            yield ["RNFR " + p, "RNTO /got"]
+        elif v == "RNTO":
+            yield ["RNFR /f", "RNTO " + p]
+        elif v == "CWD":
+            yield ["CWD " + p, "CWD " + wd]
+        else:
+            yield [v + " " + p]
+
+
+# Sessions that create things under the root and then remove *everything* under it (and then go on creating and
+# removing in the empty root, and remove / re-create the root itself): a server that prunes, renames or removes
+# "upwards" shows it here.
+TREE_DIRS = [("a",), ("a", "a"), ("a", "e")]
+TREE_FILES = [("f",), ("nx.ext",), ("a", "f"), ("a", "index.html"), ("a", "a", "f")]
+WIPE_TAIL = ["MKD x", "RMD x", "MKD y/z", "RMD y/z", "RMD y", "STOR q", "DELE q", "MKD w", "RNFR w", "RNTO v", "RMD v",
+             "MKD t/u", "RMD t/u/", "RMD ./t", "LIST /", "RMD /", "MKD /", "MKD k", "RMD k", "RMD .", "MKD m/n", "RMD m/n", "RMD m"]
+
+
+def wipe_session(rng):
+    """-> (lines, index of the line after which nothing is left under the root)."""
+    dirs = set(TREE_DIRS)
+    files = set(TREE_FILES)
+    wd = ()
+    lines = []
+
+    def ref(t):
+        r = 0.0 if rng is None else rng.random()      # rng None: deterministic order, absolute paths
+        if r < 0.35:
+            return "/" + "/".join(t)
+        c = 0
+        while c < min(len(wd), len(t)) and wd[c] == t[c]:
+            c += 1
+        p = "/".join([".."] * (len(wd) - c) + list(t[c:])) or "."
+        if r < 0.55:
+            p = "./" + p
+        elif r < 0.65:
+            p += "/"
+        elif r < 0.75 and t:
+            p = "/".join(t[:1]) + "/../" + "/".join(t) if not wd else p
+        return p
+
+    if rng is not None:
+        # create some more first
+        for i in range(rng.randint(0, 3)):
+            base = rng.choice(sorted(dirs | {()}))
+            d = base + ("n%d" % i,)
+            if rng.random() < 0.5:
+                lines.append("MKD " + ref(d + ("o",)))
+                dirs |= {d, d + ("o",)}
+            else:
+                lines.append("STOR " + ref(d))
+                files.add(d)
+    while dirs or files:
+        if rng is not None and rng.random() < 0.2:
+            wd = rng.choice(sorted(dirs | {()}))
+            lines.append("CWD /" + "/".join(wd))
+        removable = sorted(files) + sorted(d for d in dirs if not any(x[:len(d)] == d and x != d for x in dirs | files))
+        t = removable[0] if rng is None else rng.choice(removable)
+        if t in files:
+            files.discard(t)
+            lines.append("DELE " + ref(t))
+        else:
+            dirs.discard(t)
+            lines.append("RMD " + ref(t))
+    k = len(lines)
+    lines.append("CWD /")
+    tail = list(WIPE_TAIL)
+    lines += tail
+    return lines, k
+
+
+
+
 
 def concrete(syms, abssib=None):
     al = alphabet()
-    return "/".join(abssib if s == "abssib" else al[s] for s in syms)
+    return "/".join(abssib if s == "abssib" else al.get(s, s) for s in syms)
 
 
 class Server:
@@ -177,17 +281,25 @@ class Session:
             c.cancel()
 
 
-def run_session(server, anon, lines):
-    """lines: list of command lines (str).  Fresh scratch tree, fresh connection."""
+def run_session(server, anon, lines, probe_after=None):
+    """lines: list of command lines (str).  Fresh scratch tree, fresh connection.  probe_after: index of the line
+    after which the harness looks (audit off) whether anything is left under the root (bookkeeping for the
+    vacuity guard of the wipe sessions; not part of the trace)."""
+    from harness.adapters import c26_c54_pathns as A
     ns = server.ns
     ns.build()
     s = Session(server, anon)
-    for ln in lines:
+    emptied = None
+    for i, ln in enumerate(lines):
         if s.dead:
             break
+        if probe_after is not None and i == probe_after:
+            A.AUDIT.enabled = False
+            emptied = (not os.path.exists(ns.root)) or os.listdir(ns.root) == []
         s.cmd(ln)
     s.close()
-    return {"cfg": {"root": ns.comps(ns.root), "cwd": ns.comps(os.getcwd())}, "anon": anon, "lines": list(lines), "ev": s.ev}
+    return {"cfg": {"root": ns.comps(ns.root), "cwd": ns.comps(os.getcwd())}, "anon": anon, "lines": list(lines), "ev": s.ev,
+            "emptied": emptied}
 
 
 SPEC_KEYS = ("e", "acc", "served")
@@ -246,6 +358,8 @@ def random_session(rng, ns, n):
         syms = [rng.choice(FULL if rng.random() < 0.6 else CORE) for _ in range(k)]
         if rng.random() < 0.05:
             syms[0] = "abssib"
+        if rng.random() < 0.25:
+            syms[rng.randrange(k)] = rng.choice(ODD_ALL)
         p = concrete(syms, ns.sibling)
         v = rng.choice(PATH_VERBS + ("CWD", "CWD", "RETR", "STOR", "RNTO"))
         if v == "RNTO" and rng.random() < 0.6:
@@ -370,7 +484,28 @@ def run(ctx):
         for b in batches(exhaustive_lines(PATH_VERBS, CORE, 1, ctx.pick(1, 2), wd), K):
             traces.append(run_session(server, True, ["CWD " + wd] + b))
             nex += len(b)
+    # dot segments decorated with NUL / odd bytes
+    for wd in WDS[:2]:
+        for b in batches(odd_lines(wd, not ctx.quick), K):
+            traces.append(run_session(server, False, ["CWD " + wd] + b))
+            nex += len(b)
+    for b in batches(odd_lines("/", False), K):
+        traces.append(run_session(server, True, b))
+        nex += len(b)
     ctx.log("exhaustive: %d commands in %d sessions" % (nex, len(traces)))
+    # create-then-remove-everything sessions, both shells
+    nwipe = 0
+    lines, k = wipe_session(None)
+    for anon in (False, True):
+        traces.append(run_session(server, anon, lines, probe_after=k))
+    for i in range(ctx.pick(12, 300)):
+        lines, k = wipe_session(rng)
+        traces.append(run_session(server, i % 8 == 7, lines, probe_after=k))
+    wipes = [t for t in traces if t.get("emptied") is not None]
+    nwipe = sum(1 for t in wipes if t["emptied"] and not t["anon"])
+    if nwipe < (len([t for t in wipes if not t["anon"]]) + 1) // 2:
+        raise MachineryError("vacuity: only %d of %d wipe sessions left the root empty" % (nwipe, len(wipes)))
+    ctx.extra.update(wipe_sessions=len(wipes), wipe_sessions_root_emptied=nwipe)
     # random long sessions
     nrand = ctx.pick(60, 1500)
     for i in range(nrand):
